@@ -219,3 +219,16 @@ func GenPad(t *rapid.T) int {
 	}
 	return rapid.SampledFrom([]int{63, 64, 65, 255, 256, 257, 1023, 1024, 1025, 2048, 4096, 4097, 10001}).Draw(t, "pad")
 }
+
+// GenNumCh draws the channel count of a numeric-kernel case: mostly few
+// channels, sometimes 9..64, and for the very long buffers a mix of both (a
+// conversion may treat "long and wide" differently from either alone).
+func GenNumCh(t *rapid.T, pad int) int {
+	if pad > 30000 {
+		return rapid.SampledFrom([]int{1, 2, 7, 9, 12, 33, 64}).Draw(t, "chLong")
+	}
+	if rapid.IntRange(0, 7).Draw(t, "chWideSel") == 0 {
+		return rapid.IntRange(9, 64).Draw(t, "chWide")
+	}
+	return rapid.SampledFrom([]int{1, 1, 2, 3, 5, 8}).Draw(t, "ch")
+}
